@@ -137,7 +137,7 @@ def automaton_case(ctx, idx, rng):
     eid = [int(rng.integers(0, 3))]
 
     def add_edge(a, b, forced=None):
-        kind = int(rng.integers(0, 5)) if forced is None else forced
+        kind = int(rng.integers(0, 6)) if forced is None else forced
         base = [(int(rng.integers(0, 3)), float(rng.choice([-1, .5, 1, 2, 0.0]) if forced is None else rng.choice([-1, .5, 1, 2])))]
         if rng.random() < 0.25:
             base.append((int(rng.integers(0, 3)), float(rng.choice([-1, .5, 1, 2]))))
@@ -153,6 +153,16 @@ def automaton_case(ctx, idx, rng):
             opics = (lambda i, b=base: [(o, c * (i + 1)) for o, c in b])
             act = True
             f_op, f_act = opics, (lambda i: True)
+        elif kind == 5:
+            # a site-dependent callable that fills and returns ONE reused list object (a buffer): every layer must get its own copy of the data
+            buf = [None] * len(base)
+            scal = [float(rng.choice([1.0, -2.0, 0.5, 2.0])) for _ in range(L)]
+            def opics(i, b=base, buf=buf, scal=scal):
+                for k_, (o, c) in enumerate(b):
+                    buf[k_] = (o, c * scal[i])
+                return buf
+            act = True
+            f_op, f_act = (lambda i, b=base, scal=scal: [(o, c * scal[i]) for o, c in b]), (lambda i: True)
         elif kind == 4:
             # coefficients stored per site for the sites where the edge exists ONLY (impurity / boundary terms in a dict keyed by site):
             # opics(i) raises KeyError off the activity domain -- honouring activity means not asking for data of an inactive edge
